@@ -7,6 +7,18 @@ from . import coqrun, terms
 VERIF = coqrun.VERIF
 REPO = os.environ.get('VERIF_REPO', '/repo')
 
+COMMON_TRUSTED_BASE = [
+    'Coq 8.16.1 kernel (coqc); vm_compute for the in-Coq evaluation of the model on the correspondence cases and for the non-vacuity Examples; no native_compute; no extraction',
+    'axioms: none - Print Assumptions under every theorem of the property file says "Closed under the global context" (re-checked on every run); coqchk -o (thorough tier) reports Axioms <none>',
+    'the hand-written Gallina model of the anchored code: tied to /repo only by the differential run of this check (generators, implementation driver, canonicalisation, printer Base/Str.v show and its parser harness/lib/terms.py are trusted)',
+    'modelled, not verified: CPython (generator protocol, immediate finalisation of dropped generators, exec/compile, repr, recursion limit), the ANTLR 4.9.1 runtime and the checked-in generated lexer/parser, click',
+    'the repaired defects D1-D24 of /repo (fix: commits, DESIGN.md section 2): the theorems are about the repaired tree',
+]
+COMMON_ASSUMPTIONS = [
+    'the specification objects of the property file (reference semantics, list specs, recogniser of the grammar) say what the property text says',
+    'cases outside the property domain (cyclic unifications, unbound goals, lone surrogates in source text) are not generated or are exempted explicitly, as the property text leaves them unspecified',
+]
+
 def log(*a):
     print(*a, file=sys.stderr, flush=True)
 
@@ -342,6 +354,9 @@ def _run_check(prop, tier, seed, replay, t0, violations, known_lines):
         d = getattr(prop, 'describe', lambda c: None)(c)
         samples.append({'case': c, 'implementation': io, 'description': d})
     tb = list(getattr(prop, 'TRUSTED_BASE', []))
+    for item in COMMON_TRUSTED_BASE:
+        if item not in tb:
+            tb.append(item)
     axioms = sorted({a for v in info['assumptions'].values() for a in v})
     ev = {
         'property_id': pid, 'tier': tier, 'seed': int(seed), 'level': 'proof',
@@ -360,7 +375,7 @@ def _run_check(prop, tier, seed, replay, t0, violations, known_lines):
             'known_finding_hits': {k: len(v) for k, v in known_hits.items()},
             'model_evaluations_not_finished_in_time': coqrun.MODEL_TIMEOUTS[0],
         },
-        'assumptions': list(getattr(prop, 'ASSUMPTIONS', [])),
+        'assumptions': list(getattr(prop, 'ASSUMPTIONS', [])) + [a for a in COMMON_ASSUMPTIONS if a not in getattr(prop, 'ASSUMPTIONS', [])],
         'wall_s': round(time.time() - t0, 1),
         'violations': len(violations),
     }
